@@ -2,6 +2,7 @@ CONSTANTS
   CasesFile = "cases.json"
   MaxIn = 4
   DevUnderflowPanics = FALSE
+  DevBackrefInvalidUtf8 = FALSE
 SPECIFICATION Spec
 INVARIANTS LockStep GenNoPanic
 CHECK_DEADLOCK FALSE
